@@ -1034,9 +1034,9 @@ def b_bar_place(tier, rnd):
     cases = []
     for (b,) in b_bars_filled(tier, rnd)["cases"][::3]:
         for v in (1, 2, 4, 8, 16, 3, 6, 1.5, 5, 12):
-            for content in (None, NoteContainer(["C", "E"])):
+            for content in (None, NoteContainer(["C", "E"]), "F#", "Bbb"):
                 cases.append((copy.deepcopy(b), content, v))
-    return {"rule": "every third intermediate state of the 'bars_filled' battery x 10 values x {rest, container}",
+    return {"rule": "every third intermediate state of the 'bars_filled' battery x 10 values x {rest, container, two bare names}",
             "cases": cases}
 
 
